@@ -27,6 +27,11 @@ func mainLoop(L *LState, baseframe *callFrame) {
 		if jumpTable[int(inst>>26)](L, inst, baseframe) == 1 {
 			return
 		}
+		if L.ctx != nil {
+			// SetContext was called by a host function while this loop was running
+			mainLoopWithContext(L, baseframe)
+			return
+		}
 	}
 }
 
